@@ -41,11 +41,27 @@ func isLookupFn(f *ssa.Function) bool {
 	if _, ok := f.Signature.Results().At(0).Type().Underlying().(*types.Pointer); !ok {
 		return false
 	}
-	for _, r := range Returns(f) {
-		if isNilConst(ReturnOperand(r, 0)) {
-			if k, ok := constInt(ReturnOperand(r, 1)); ok && k == -1 {
-				return true
+	// the "not found" answer may be written as the constants themselves or as result variables that start
+	// out as (nil, -1) and are overwritten on a hit: the returned values then are phis with those constants
+	var mayBe func(v ssa.Value, isK func(ssa.Value) bool, seen map[ssa.Value]bool) bool
+	mayBe = func(v ssa.Value, isK func(ssa.Value) bool, seen map[ssa.Value]bool) bool {
+		if isK(v) {
+			return true
+		}
+		if ph, ok := v.(*ssa.Phi); ok && !seen[v] {
+			seen[v] = true
+			for _, e := range ph.Edges {
+				if mayBe(e, isK, seen) {
+					return true
+				}
 			}
+		}
+		return false
+	}
+	isM1 := func(v ssa.Value) bool { k, ok := constInt(v); return ok && k == -1 }
+	for _, r := range Returns(f) {
+		if mayBe(ReturnOperand(r, 0), isNilConst, map[ssa.Value]bool{}) && mayBe(ReturnOperand(r, 1), isM1, map[ssa.Value]bool{}) {
+			return true
 		}
 	}
 	return false
@@ -341,39 +357,57 @@ func rbMirrorAndReset(p *Prog, r *Report, pools []poolInfo, rule string) {
 		what := "roundrobin.(*Rebalancer)." + mn
 		inner := NewEvents(p, func(in ssa.Instruction) bool { _, ok := IsInvoke(in, mn); return ok })
 		errIdx := errorResultIndex(m.Signature)
-		// every successful return passes inner, then (for membership changes) reset
+		// every successful return passes inner, then (for membership changes) reset; a return that hands the
+		// verdict to an in-module routine (`return rb.removeServer(u)`) is followed into that routine, which
+		// must then supply what is still missing
 		var badInner, badReset *ssa.Return
-		for _, ret := range Returns(m) {
-			if isNil, known := returnErrIsNil(ret, errIdx); known && !isNil {
-				continue
-			}
-			// success (or unknown): must have passed inner and reset
-			if ReachableAvoiding(m, nil, ret, inner.Is, nil) {
-				// the unknown-error return `return rb.removeServer(u)` delegates: accept if the callee enforces it
-				if c, ok := ReturnOperand(ret, errIdx).(*ssa.Call); ok && p.InModule(c.Common().StaticCallee()) {
-					callee := c.Common().StaticCallee()
-					okc := true
-					for _, r2 := range Returns(callee) {
-						if isNil, known := returnErrIsNil(r2, errorResultIndex(callee.Signature)); known && !isNil {
-							continue
-						}
-						if ReachableAvoiding(callee, nil, r2, inner.Is, nil) || ReachableAvoiding(callee, nil, r2, reset.Is, nil) {
-							okc = false
+		var enforce func(fn *ssa.Function, needInner, needReset bool, d int)
+		enforce = func(fn *ssa.Function, needInner, needReset bool, d int) {
+			ei := errorResultIndex(fn.Signature)
+			for _, ret := range Returns(fn) {
+				if isNil, known := returnErrIsNil(ret, ei); known && !isNil {
+					continue
+				}
+				// `if err == nil { reset() }; return err`: on the edges where the returned value is known to be
+				// non-nil this return is a failing one
+				var succEdge func(Edge) bool
+				if ei >= 0 {
+					rv := stripConv(ReturnOperand(ret, ei))
+					var nonNil []Edge
+					for _, t := range NilTests(fn, func(x ssa.Value) bool { return stripConv(x) == rv }) {
+						nonNil = append(nonNil, t.NonNil)
+					}
+					if len(nonNil) > 0 {
+						succEdge = func(e Edge) bool {
+							for _, x := range nonNil {
+								if x.B == e.B && x.K == e.K {
+									return false
+								}
+							}
+							return true
 						}
 					}
-					if okc {
+				}
+				missInner := needInner && ReachableAvoiding(fn, nil, ret, inner.Is, succEdge)
+				missReset := needReset && ReachableAvoiding(fn, nil, ret, reset.Is, succEdge)
+				if !missInner && !missReset {
+					continue
+				}
+				if c, ok := ReturnOperand(ret, ei).(*ssa.Call); ok && d < 4 && ei >= 0 {
+					if callee := c.Common().StaticCallee(); callee != nil && p.InModule(callee) && len(callee.Blocks) > 0 {
+						enforce(callee, missInner, missReset, d+1)
 						continue
 					}
 				}
-				badInner = ret
-			}
-			if ReachableAvoiding(m, nil, ret, reset.Is, nil) {
-				if c, ok := ReturnOperand(ret, errIdx).(*ssa.Call); ok && p.InModule(c.Common().StaticCallee()) {
-					continue // checked through the callee above
+				if missInner && badInner == nil {
+					badInner = ret
 				}
-				badReset = ret
+				if missReset && badReset == nil {
+					badReset = ret
+				}
 			}
 		}
+		enforce(m, true, true, 0)
 		r.Check(badInner == nil, rule, what+": mirrored into the wrapped balancer", p.FuncPos(m), "every successful return has passed the wrapped balancer's "+mn, "a successful return is reachable without changing the wrapped balancer"+posOf(p, badInner))
 		r.Check(badReset == nil, rule, what+": reset() on success", p.FuncPos(m), "every successful return has passed reset() (configured weights re-applied to the wrapped balancer)", "a successful return is reachable without reset()"+posOf(p, badReset))
 		// a failed add is rolled back: once the wrapped balancer accepted the server, every failing return
@@ -594,6 +628,55 @@ func c02EmptyPool(p *Prog, r *Report) {
 		nErr++
 		kinds[kind] = true
 		r.Check(okE, "C02.R3", "roundrobin.RoundRobin selection routine: "+kind+" returns an error", p.InstrPos(ifi), "the edge returns (nil, non-nil error)", "the "+kind+" edge does not return an error")
+	}
+	if !kinds["zero maximum weight"] {
+		// the zero test may reach its branch as a value (a helper's boolean result, a flag): read the routine's
+		// paths with the branch conditions resolved along each path
+		zeroAtom := func(cond ssa.Value) (string, bool) {
+			bo, ok := cond.(*ssa.BinOp)
+			if !ok || (bo.Op != token.EQL && bo.Op != token.NEQ) {
+				return "", false
+			}
+			cmp, ok := CanonCmp(BuildExpr(p, bo, nil))
+			if !ok || !(cmp.Mentions("fld(p0)."+ri.cwF) && len(cmp.D.P) == 1) {
+				return "", false
+			}
+			if cmp.Op == "!=" {
+				return "!zero", true
+			}
+			return "zero", true
+		}
+		nZero, okZ := 0, true
+		var at ssa.Instruction
+		for _, ret := range Returns(fn) {
+			for _, path := range EnumPaths(fn, ret, 4096) {
+				isZero := false
+				lits := PathLits(p, path, zeroAtom)
+				if contradictory(lits) {
+					continue
+				}
+				for _, l := range lits {
+					if l.Atom == "zero" && l.Val {
+						isZero = true
+					}
+				}
+				if !isZero {
+					continue
+				}
+				nZero++
+				at = ret
+				isNil, known := returnErrIsNil(ret, 1)
+				if !isNilConst(ReturnOperand(ret, 0)) || !known || isNil {
+					okZ = false
+				}
+			}
+		}
+		if nZero > 0 {
+			nErr++
+			kinds["zero maximum weight"] = true
+			r.Paths += nZero
+			r.Check(okZ, "C02.R3", "roundrobin.RoundRobin selection routine: zero maximum weight returns an error", p.InstrPos(at), "every path on which the level was found to be 0 returns (nil, non-nil error)", "a path on which the level is 0 does not return an error")
+		}
 	}
 	checkRRSelectionGuards(p, r, ri, "C02.R3")
 	r.Check(kinds["empty pool"] && kinds["zero maximum weight"], "C02.R3", "roundrobin.RoundRobin selection routine: has empty-pool and zero-maximum tests", p.FuncPos(fn),
@@ -845,7 +928,7 @@ func mutantsC02() []Mutant {
 		{Name: "rr-remove-unknown-silently", File: rr, Old: "\tif e == nil {\n\t\treturn errors.New(\"server not found\")\n\t}", New: "\tif e == nil {\n\t\treturn nil\n\t}", Expect: "C02.R2"},
 		{Name: "rb-remove-no-reset", File: rb, Old: "\trb.servers = append(rb.servers[:i], rb.servers[i+1:]...)\n\trb.reset()\n", New: "\trb.servers = append(rb.servers[:i], rb.servers[i+1:]...)\n", Expect: "C02.R2"},
 		{Name: "nextserver-uncopied", File: rr, Old: "\treturn utils.CopyURL(srv.url), nil", New: "\treturn srv.url, nil", Expect: "C02.R5"},
-		{Name: "zero-weight-check-dropped", File: rr, Old: "\t\t\t\tif r.currentWeight == 0 {\n\t\t\t\t\treturn nil, errors.New(\"all servers have 0 weight\")\n\t\t\t\t}\n", New: "", Expect: "C0"},
+		{Name: "zero-weight-check-dropped", File: rr, Old: "\t\t\t\tif r.currentWeight == 0 {\n", New: "\t\t\t\tif r.currentWeight < 0 {\n", Expect: "C0"},
 		{Name: "rb-adjust-outside-lock", File: "roundrobin/rebalancer.go", Old: "func (rb *Rebalancer) adjustWeights() {\n\trb.mtx.Lock()\n\tdefer rb.mtx.Unlock()\n", New: "func (rb *Rebalancer) adjustWeights() {\n", Expect: "C02.R6"},
 		{Name: "rr-remove-keeps-iterator", File: "roundrobin/rr.go", Old: "\tr.servers = append(r.servers[:index], r.servers[index+1:]...)\n\tr.resetState()\n", New: "\tr.servers = append(r.servers[:index], r.servers[index+1:]...)\n", Expect: "C02.R7"},
 		{Name: "rb-rollback-through-own-remove", File: "roundrobin/rebalancer.go", Old: "\t\t_ = rb.next.RemoveServer(u)\n", New: "\t\t_ = rb.removeServer(u)\n", Expect: "C02.R2"},
